@@ -201,7 +201,7 @@ func straceFamily(funcs []fnRec, tuples []tuple) []*core.Family {
 			}
 			c := straceDecode(cur)
 			f := funcs[c.fn]
-			e := refExpect(f.declared, c.req)
+			e := refExpect(f.declared, effective(c.req, c.sp))
 			key := fmt.Sprintf("fn=%s %s sp=%s clause=%s", f.name, e.class, spellings[c.sp].class, cl)
 			if seen[key] {
 				continue
